@@ -195,6 +195,11 @@ def check_encoder_side(ctx, rep, R5="I5"):
                 s2.tags = st.tags + (("digit", args[-1], op_),)
                 s2.epoch += 1
                 return [(s2, Con(None))]
+            if isinstance(callee, tuple) and callee[0] == "method" and callee[1] == "reverse" and fr.depth == 0 and not args:
+                s2 = st.copy()
+                s2.tags = st.tags + (("reverse-in-place",),)
+                s2.epoch += 1
+                return [(s2, Con(None))]
             return None
     h5 = H5()
     eng = Engine(ctx, h5)
@@ -251,13 +256,17 @@ def check_encoder_side(ctx, rep, R5="I5"):
             # big-endian result
             rev = False
             for st_, v in fr.returns:
+                r_ = False
                 if isinstance(v, Unk):
                     o = eng.origin.get(v.term)
                     if o and o[0] == "slice" and not o[2] and not o[3] and len(o[4]) == 1 and isinstance(o[4][0], Num) \
                             and o[4][0].lin.is_const() and o[4][0].lin.k == -1:
-                        rev = True
+                        r_ = True
                     if isinstance(v.term, tuple) and v.term[0] == "ext" and v.term[1] in ("reversed",):
-                        rev = True
+                        r_ = True
+                if sum(1 for t in st_.tags if t[0] == "reverse-in-place") % 2 == 1:
+                    r_ = not r_          # `digits.reverse()` before the return
+                rev = rev or r_
             if getattr(h5, "order", None) == "lsb-first" and not rev:
                 probs.append("digits are produced least-significant first but not reversed (must be big-endian)")
             if getattr(h5, "order", None) == "msb-first" and rev:
